@@ -600,23 +600,16 @@ impl TextResource {
     /// Low-level method to get a textselection, if the text selection is known, its' handle will be set
     /// If you don't care about unbound textselection but only known ones, then use [`Self::known_textselection()`] instead.
     pub fn textselection_by_offset(&self, offset: &Offset) -> Result<TextSelection, StamError> {
-        let (begin, end) = (
-            self.beginaligned_cursor(&offset.begin)?,
-            self.beginaligned_cursor(&offset.end)?,
-        );
-        let mut handle: Option<TextSelectionHandle> = None;
-        if let Some(beginitem) = self.positionindex.0.get(&begin) {
+        //this validates the offset (bounds and order)
+        let mut textselection = self.textselection_by_offset_unchecked(offset)?;
+        if let Some(beginitem) = self.positionindex.0.get(&textselection.begin) {
             for (end2, gothandle) in beginitem.begin2end.iter() {
-                if *end2 == end {
-                    handle = Some(*gothandle);
+                if *end2 == textselection.end {
+                    textselection.intid = Some(*gothandle);
                 }
             }
         }
-        Ok(TextSelection {
-            intid: handle,
-            begin,
-            end,
-        })
+        Ok(textselection)
     }
 
     /// Low-level method returning an unsorted iterator over all textselections in this resource
